@@ -192,6 +192,12 @@ def rejection_rules(chk, S, r1, r2, r4):
         else:
             r1.fail("RejectionLoop.step", f"does not return a TimeStepState record: {T.show(res, 3)}", site, cfg)
 
+        # R1e: what the rejection loop starts from is the carried time-step state: its dt, its step_from / error state, and the controller's state
+        #      (the proportional-integral controller's memory is the error of the last *accepted* attempt of the whole run, not of this checkpoint interval)
+        for f in ("dt", "control", "step_from", "error_step_from"):
+            r1.require(init.fields.get(f) is s0.fields[f], f"RejectionLoop.step_init_loopstate.{f}", f"{f} of the carried TimeStepState",
+                       f"the rejection loop starts with {f} = {T.show(init.fields.get(f), 3)} instead of the carried state's {f}"
+                       + (" -- the controller's memory is reset at every step" if f == "control" else ""), site, cfg)
         # R2: rejected attempt pure
         for f in ("step_from", "error_step_from"):
             r2.require(body.fields[f] is st.fields[f], f"RejectionLoop.step_attempt.{f}", "passed through unchanged",
@@ -724,3 +730,7 @@ def driver_loop_rules(chk, S):
 def run(chk, S: Session):
     _run_core(chk, S)
     driver_loop_rules(chk, S)
+    from ..harness import borrow
+
+    rb = chk.rule("R-C06-B", "the terminal-value routine runs the same loop with the caller's controller, error estimator, clipping flag and options (rule of C05)", floor=6)
+    borrow(chk, S, rb, "C05", lambda r, c: r == "R-C05-3" and c.startswith("solve_adaptive_terminal_values"))
